@@ -49,7 +49,7 @@ pub async fn worker(
 
 		debug!("running action handler");
 		#[cfg_attr(watchexec_verif, allow(unused_mut))]
-		let action = match config.action_handler.call(action) {
+		let mut action = match config.action_handler.call(action) {
 			ActionReturn::Sync(action) => action,
 			ActionReturn::Async(action) => Box::into_pin(action).await,
 		};
@@ -60,13 +60,13 @@ pub async fn worker(
 		let mut action = crate::verif::sort_action(action);
 
 		debug!("take control of new tasks");
-		for (id, (job, task)) in action.new {
+		for (id, (job, task)) in take(&mut action.new) {
 			trace!(?id, "taking control of new task");
 			jobtasks.insert(task);
 			jobs.insert(id, job);
 		}
 
-		if let Some(manner) = action.quit {
+		if let Some(manner) = action.quit.take() {
 			debug!(?manner, "quitting worker");
 			match manner {
 				QuitManner::Abort => break,
